@@ -29,8 +29,32 @@ def values(ctx):
     return vs
 
 
+class Envelope:
+    """a value whose pickling itself stores something through the serializer: the re-entrant form of two threads pickling at the same time"""
+    def __init__(self, body):
+        self.body = body
+
+    def __eq__(self, o):
+        return type(o) is Envelope and o.body == self.body
+
+    def __repr__(self):
+        return "Envelope(%r)" % (self.body,)
+
+    def __reduce__(self):
+        from pymemcache import serde as _serde
+        payload, flags = _serde.pickle_serde.serialize("inner", self.body)
+        return (_open_envelope, (payload, flags))
+
+
+def _open_envelope(payload, flags):
+    from pymemcache import serde as _serde
+    if isinstance(payload, str):
+        payload = payload.encode("ascii")
+    return Envelope(_serde.pickle_serde.deserialize("inner", payload, flags))
+
+
 def objects():
-    return [b"bytes", "text", "é€\U0001F600", 0, 1, -1, 10 ** 40, -10 ** 400, True, False, None, 1.5, float("inf"), [1, "a", b"b", None],
+    return [Envelope({"user": "bob", "visits": [1, 2]}), [Envelope("inner text"), 7], b"bytes", "text", "é€\U0001F600", 0, 1, -1, 10 ** 40, -10 ** 400, True, False, None, 1.5, float("inf"), [1, "a", b"b", None],
             {"k": [1, 2, {"n": (1, 2)}]}, (1, (2, (3,))), {1, 2}, frozenset({"a"}), IntSub(5), StrSub("s"), BytesSub(b"b"), DictSub(a=1),
             "x" * 5000, b"y" * 5000, list(range(300)), "", b"", 2 ** 64, complex(1, 2),
             bytes((i * 197 + (i >> 3) * 31 + i * i) % 256 for i in range(1500)), __import__("zlib").compress(b"already compressed" * 200) * 1,
@@ -303,6 +327,35 @@ def main(argv):
                 if r1 is not True or type(got) is not type(o) or got != o:
                     ctx.violation("value did not come back equal and of the same type", dict(case, got=f"{type(got).__name__}" + (f" of len {len(got)}" if hasattr(got, "__len__") else "")),
                                   tags=["serde:" + sname.split("-")[0], "big-value"])
+    # 3d. ignore_exc: a fetch that fails on the client's side is reported as a miss - and the stores and fetches that follow still mean what they say
+    from faultrun import Scripted
+    from pymemcache.client.base import PooledClient
+    for kind_ in ("Client", "Pooled"):
+        for fault_ in ({"recv_fault": (0, "timeout")}, {"recv_fault": (1, "timeout"), "chunk": "bytes"}, {"mutation": "garbage-line"}, {"mutation": "non-numeric-size"}):
+            for nr_ in (None, False):
+                S_ = Scripted(rng)
+                kw_ = dict(socket_module=S_.sm, ignore_exc=True, default_noreply=True)
+                c_ = Client(("h", 1), **kw_) if kind_ == "Client" else PooledClient(("h", 1), max_pool_size=1, **kw_)
+                ctx.case(("ignored-fetch-failure", kind_, repr(fault_), nr_))
+                ctx.count("ignored fetch failures followed by store and fetch")
+                case = {"class": kind_, "fetch_fault": repr(fault_), "noreply_of_the_second_store": nr_}
+                try:
+                    S_.begin_call(0, {})
+                    c_.set("k", b"v1-old", noreply=False)
+                    S_.begin_call(1, dict(fault_))
+                    miss_ = c_.get("k")
+                    S_.begin_call(2, {})
+                    c_.set("k", b"v2-new", noreply=nr_)
+                    S_.begin_call(3, {})
+                    got_ = c_.get("k")
+                    S_.begin_call(4, {})
+                    got2_ = c_.get_many(["k", "zz"])
+                except Exception as e:
+                    ctx.violation("store/fetch raised after an ignored fetch failure", dict(case, error=repr(e)[:100]), tags=["ignored-fetch-failure"])
+                    continue
+                if got_ != b"v2-new" or got2_ != {"k": b"v2-new"}:
+                    ctx.violation("after a fetch failure that was ignored, a later fetch does not return the value stored last", dict(case, failed_fetch_returned=repr(miss_), got=repr(got_), get_many=repr(got2_)[:60]),
+                                  tags=["ignored-fetch-failure"])
     # 3b. one set_many with values of DIFFERENT kinds (every item carries its own serializer flags), in several orders, fetched back one by one
     #     and together
     mixed = [("i", 7), ("b", b"raw bytes"), ("t", "text \u00e9"), ("d", {"k": [1, 2]}), ("z", 0), ("e", b""), ("n", None), ("f", 1.5), ("big", 10 ** 30)]
